@@ -29,7 +29,8 @@ def _rt(qt, cap, mx):
 def _rtjob(binname, prop, quick_cases=40, quick_procs=2):
     return {"bin": binname, "params": {"prop": prop}, "realthread": True,
             "quick": {"cases": quick_cases, "procs": quick_procs, "maxlen": 400},
-            "thorough": {"cases": 1500, "procs": 4, "maxlen": 400}}
+            # ThreadSanitizer flavours run the same programs 5-10 times slower: fewer cases
+            "thorough": {"cases": 300 if binname.endswith("_tsan") else 1500, "procs": 4, "maxlen": 400}}
 
 
 BINARIES = {
